@@ -91,16 +91,25 @@ func (fx *FnCtx) doCallVals(st *State, fr *callFrame, site ssa.Instruction, cc *
 	} else if cc.StaticCallee() == nil && fnv != nil && fnv.Clo == nil {
 		fx.oblige(st, fx.oname("safety", "nil-func-call"), "safety", nil, tNot(tEq(fnv.S, "0")))
 	}
-	if m := modelFor(key); m != nil {
-		k(st, m.apply(fx, st, cc, fnv, args, rt))
-		return
-	}
 	// resolve callee function (static or known closure)
 	var callee *ssa.Function
 	if f := cc.StaticCallee(); f != nil {
 		callee = f
 	} else if fnv != nil && fnv.Clo != nil {
 		callee = fx.eng.Funcs[fnv.Clo.fn]
+	}
+	// caller-side at-call clauses apply to every call, whatever way the callee is then handled
+	if fx.con != nil && len(fx.con.AtCalls) > 0 {
+		for _, ac := range fx.con.AtCalls {
+			if calleeMatches(ac.Callee, key) {
+				fx.atCalls(st, key, fx.callEnv(st, st.snapshot(), callee, cc, fnv, args))
+				break
+			}
+		}
+	}
+	if m := modelFor(key); m != nil {
+		k(st, m.apply(fx, st, cc, fnv, args, rt))
+		return
 	}
 	con := fx.eng.CS.Funcs[key]
 	if con != nil {
@@ -400,7 +409,6 @@ func (fx *FnCtx) applyContract(st *State, fr *callFrame, site ssa.Instruction, k
 		g := env.evalBool(r.E)
 		fx.oblige(st, fx.oname("pre", short+"]"+r.Tag()), "pre", r, g)
 	}
-	fx.atCalls(st, key, env)
 	// the callee may allocate
 	nt := fx.fresh("top", "Int")
 	fx.sol.Assert(tCmp(">=", nt, st.allocTop))
